@@ -859,55 +859,167 @@ Qed.
 
 (** ** Histories *)
 
-Lemma nondef_defs w o : is_def o = false -> w_defs (step w o) = w_defs w.
+Lemma plain_defs w o : is_def o = false -> is_cop o = false -> w_defs (step w o) = w_defs w.
 Proof.
-  destruct o as [a|a|c|l|ks|d|s ts tf|id s|id k|id s|id k v|id k|d b|m]; try discriminate; intros _; cbn;
-    try reflexivity.
+  destruct o as [a|a|c|l|ks|d|s ts tf|id s|id k|id s|id k v|id k|d b|m|c t]; try discriminate;
+    intros _ _; cbn; try reflexivity.
   destruct (mem_str _ _); reflexivity.
 Qed.
 
-Lemma step_defs w o : exists l, w_defs (step w o) = w_defs w ++ l /\ List.length l = (if is_def o then 1 else 0).
+Lemma nth_set_nth_eq {A} (x d : A) : forall t l, t < List.length l -> nth t (set_nth t x l) d = x.
+Proof. induction t; destruct l; cbn; intros; try lia; [reflexivity | apply IHt; lia]. Qed.
+
+Lemma nth_set_nth_neq {A} (x d : A) : forall t t' l, t <> t' -> nth t (set_nth t' x l) d = nth t l d.
+Proof.
+  induction t; destruct t', l; cbn; intros; try reflexivity; try congruence.
+  apply IHt. congruence.
+Qed.
+
+Lemma nth_error_nth' {A} (d : A) : forall l t o, nth_error l t = Some o -> nth t l d = o /\ t < List.length l.
+Proof.
+  induction l; destruct t; cbn; intros; try discriminate.
+  - injection H as <-. split; [reflexivity | lia].
+  - apply IHl in H as [H1 H2]. split; [assumption | lia].
+Qed.
+
+(** A class operation only touches the class it is called for. *)
+Lemma cop_defs w c t :
+  w_defs (step w (OClassOp c t)) =
+  match nth_error (w_defs w) t with
+  | Some o => set_nth t (cop_outcome c o) (w_defs w)
+  | None => w_defs w
+  end.
+Proof. cbn. destruct (nth_error (w_defs w) t); reflexivity. Qed.
+
+Lemma cop_objs w c t :
+  same_objs w (step w (OClassOp c t)) /\ w_counter (step w (OClassOp c t)) = w_counter w.
+Proof. cbn. destruct (nth_error (w_defs w) t); split; try reflexivity; repeat split. Qed.
+
+Lemma step_len w o :
+  List.length (w_defs (step w o)) = List.length (w_defs w) + (if is_def o then 1 else 0).
 Proof.
   destruct (is_def o) eqn:E.
-  - destruct (def_step_objs w o E) as (_ & _ & oc & H). exists [oc]. auto.
-  - exists []. rewrite app_nil_r. split; [apply nondef_defs; assumption | reflexivity].
+  - destruct (def_step_objs w o E) as (_ & _ & oc & H). rewrite H, app_length. reflexivity.
+  - destruct (is_cop o) eqn:E2.
+    + destruct o; try discriminate. rewrite cop_defs.
+      destruct (nth_error (w_defs w) t); [rewrite set_nth_length|]; lia.
+    + rewrite plain_defs by assumption. lia.
 Qed.
 
-Lemma run_defs : forall ops w, exists l, w_defs (run w ops) = w_defs w ++ l /\ List.length l = n_defs ops.
+Lemma run_len : forall ops w, List.length (w_defs (run w ops)) = List.length (w_defs w) + n_defs ops.
 Proof.
-  induction ops as [|o r IH]; intros w; cbn.
-  - exists []. now rewrite app_nil_r.
-  - destruct (step_defs w o) as (l1 & H1 & L1). destruct (IH (step w o)) as (l2 & H2 & L2).
-    exists (l1 ++ l2). unfold run in *. rewrite H2, H1, app_assoc. split; [reflexivity|].
-    rewrite app_length, L1, L2. unfold n_defs. cbn. destruct (is_def o); reflexivity.
+  induction ops as [|o r IH]; intros w; cbn; [unfold n_defs; cbn; lia|].
+  unfold run in IH. rewrite IH, step_len. unfold n_defs. cbn. destruct (is_def o); cbn; lia.
 Qed.
 
-Lemma last_snoc {A} (l : list A) x d : last (l ++ [x]) d = x.
-Proof. induction l as [|a l IH]; cbn; [reflexivity|]. destruct (l ++ [x]) eqn:E; [destruct l; discriminate | exact IH]. Qed.
+(** The class operations of a history that hit class [t], applied in order. *)
+Fixpoint self_ops (t : nat) (ops : list op) (o : cls_outcome) : cls_outcome :=
+  match ops with
+  | [] => o
+  | OClassOp c t' :: r => if Nat.eqb t' t then self_ops t r (cop_outcome c o) else self_ops t r o
+  | _ :: r => self_ops t r o
+  end.
 
-Lemma nth_app_len {A} (l l' : list A) x d : nth (List.length l) ((l ++ [x]) ++ l') d = x.
-Proof. rewrite <- app_assoc. rewrite app_nth2 by lia. now rewrite Nat.sub_diag. Qed.
+Lemma step_nth d w o t : t < List.length (w_defs w) ->
+  nth t (w_defs (step w o)) d = self_ops t [o] (nth t (w_defs w) d).
+Proof.
+  intros Ht. destruct (is_def o) eqn:E.
+  - destruct (def_step_objs w o E) as (_ & _ & oc & H). rewrite H, app_nth1 by assumption.
+    destruct o; try discriminate; reflexivity.
+  - destruct (is_cop o) eqn:E2.
+    + destruct o as [| | | | | | | | | | | | | |c t0]; try discriminate. cbn [self_ops].
+      rewrite cop_defs.
+      destruct (nth_error (w_defs w) t0) as [oc|] eqn:E3.
+      * apply (nth_error_nth' d) in E3 as [Hn Hl].
+        destruct (Nat.eqb_spec t0 t) as [->|Hne].
+        -- rewrite nth_set_nth_eq by assumption. now rewrite Hn.
+        -- rewrite nth_set_nth_neq by congruence. reflexivity.
+      * destruct (Nat.eqb_spec t0 t) as [->|Hne]; [|reflexivity].
+        apply nth_error_None in E3. lia.
+    + rewrite plain_defs by assumption. destruct o; try discriminate; reflexivity.
+Qed.
+
+Lemma self_ops_app t : forall a b o, self_ops t (a ++ b) o = self_ops t b (self_ops t a o).
+Proof.
+  induction a as [|x a IH]; intros b o; [reflexivity|].
+  destruct x; cbn; try apply IH. destruct (Nat.eqb t0 t); apply IH.
+Qed.
+
+Lemma run_nth d : forall ops w t, t < List.length (w_defs w) ->
+  nth t (w_defs (run w ops)) d = self_ops t ops (nth t (w_defs w) d).
+Proof.
+  induction ops as [|o r IH]; intros w t Ht; [reflexivity|].
+  change (run w (o :: r)) with (run (step w o) r).
+  rewrite IH by (rewrite step_len; lia). rewrite step_nth by assumption.
+  change (o :: r) with ([o] ++ r). now rewrite self_ops_app.
+Qed.
+
+Lemma keep_self_ops t t0 : forall r o, self_ops t0 (keep_self t t0 r) o = self_ops t r o.
+Proof.
+  induction r as [|x r IH]; intros o; [reflexivity|].
+  destruct x; cbn; try apply IH.
+  destruct (Nat.eqb t1 t); [cbn; rewrite Nat.eqb_refl|]; apply IH.
+Qed.
+
+Lemma keep_self_no_defs t t0 : forall r, n_defs (keep_self t t0 r) = 0.
+Proof.
+  induction r as [|x r IH]; [reflexivity|]. destruct x; cbn; try exact IH.
+  destruct (Nat.eqb t1 t); [|exact IH]. unfold n_defs in *. cbn. exact IH.
+Qed.
+
+Lemma last_nth_len {A} (d : A) : forall l, l <> [] -> last l d = nth (List.length l - 1) l d.
+Proof.
+  induction l as [|x r IH]; [congruence|]. intros _. destruct r as [|y r']; [reflexivity|].
+  change (last (x :: y :: r') d) with (last (y :: r') d).
+  rewrite IH by discriminate. cbn. now rewrite Nat.sub_0_r.
+Qed.
+
+Lemma sim_cop_left w1 w2 c t : sim w1 w2 -> sim (step w1 (OClassOp c t)) w2.
+Proof.
+  intros Hs. destruct (cop_objs w1 c t) as [Ho Hc].
+  eapply sim_grow; eauto using same_objs_refl; lia.
+Qed.
 
 Lemma hist_gen dflt : forall ops k w1 w2, sim w1 w2 -> k < n_defs ops ->
   nth (List.length (w_defs w1) + k) (w_defs (run w1 ops)) dflt
-  = last (w_defs (run w2 (alone k ops))) dflt.
+  = last (w_defs (run w2 (alone_from (List.length (w_defs w1)) (List.length (w_defs w1) + k)
+                                      (List.length (w_defs w2)) ops))) dflt.
 Proof.
   induction ops as [|o r IH]; intros k w1 w2 Hs Hk; [cbn in Hk; lia|].
-  unfold n_defs in Hk. cbn in Hk. cbn [alone]. destruct (is_def o) eqn:E.
+  unfold n_defs in Hk. cbn in Hk. cbn [alone_from]. destruct (is_def o) eqn:E.
   - destruct k as [|k'].
-    + destruct (def_step_rel w1 w2 o E Hs) as (oc & D1 & D2).
-      cbn. rewrite D2, last_snoc.
-      destruct (run_defs r (step w1 o)) as (l & Hl & _). unfold run in Hl. rewrite Hl, D1.
-      rewrite Nat.add_0_r. apply nth_app_len.
-    + cbn in Hk. cbn [run fold_left].
+    + rewrite Nat.add_0_r, Nat.eqb_refl.
+      destruct (def_step_rel w1 w2 o E Hs) as (oc & D1 & D2).
+      change (run w1 (o :: r)) with (run (step w1 o) r).
+      change (run w2 (o :: ?x)) with (run (step w2 o) x).
+      rewrite run_nth by (rewrite D1, app_length; cbn; lia).
+      rewrite D1, app_nth2, Nat.sub_diag by lia. cbn [nth].
+      set (t := List.length (w_defs w1)). set (t0 := List.length (w_defs w2)).
+      set (wb := run (step w2 o) (keep_self t t0 r)).
+      assert (Hlen : List.length (w_defs wb) = t0 + 1).
+      { unfold wb. rewrite run_len, keep_self_no_defs, D2, app_length. cbn. lia. }
+      rewrite last_nth_len by (destruct (w_defs wb); [cbn in Hlen; lia | discriminate]).
+      rewrite Hlen. replace (t0 + 1 - 1) with t0 by lia.
+      unfold wb. rewrite run_nth by (rewrite D2, app_length; cbn; lia).
+      rewrite D2. unfold t0. rewrite app_nth2, Nat.sub_diag by lia. cbn [nth].
+      now rewrite keep_self_ops.
+    + cbn in Hk.
+      replace (Nat.eqb (List.length (w_defs w1)) (List.length (w_defs w1) + S k')) with false
+        by (symmetry; apply Nat.eqb_neq; lia).
+      change (run w1 (o :: r)) with (run (step w1 o) r).
       pose proof (IH k' (step w1 o) w2 (sim_def_left w1 w2 o E Hs)) as H.
-      destruct (def_step_objs w1 o E) as (_ & _ & oc & D1).
-      rewrite D1, app_length in H. cbn in H. unfold run in H.
-      replace (List.length (w_defs w1) + S k') with (List.length (w_defs w1) + 1 + k') by lia.
+      rewrite step_len, E in H.
+      replace (List.length (w_defs w1) + 1 + k') with (List.length (w_defs w1) + S k') in H by lia.
+      replace (List.length (w_defs w1) + 1) with (S (List.length (w_defs w1))) in H by lia.
       apply H. unfold n_defs. lia.
-  - cbn [run fold_left].
-    destruct (sim_nondef w1 w2 o E Hs) as (Hs' & D1 & D2).
-    pose proof (IH k (step w1 o) (step w2 o) Hs') as H. rewrite D1 in H. apply H. exact Hk.
+  - change (run w1 (o :: r)) with (run (step w1 o) r).
+    destruct (is_cop o) eqn:E2.
+    + destruct o as [| | | | | | | | | | | | | |c t]; try discriminate.
+      pose proof (IH k (step w1 (OClassOp c t)) w2 (sim_cop_left w1 w2 c t Hs)) as H.
+      rewrite step_len in H. cbn in H. rewrite Nat.add_0_r in H. apply H. exact Hk.
+    + change (run w2 (o :: ?x)) with (run (step w2 o) x).
+      destruct (sim_nondef w1 w2 o E E2 Hs) as (Hs' & D1 & D2).
+      pose proof (IH k (step w1 o) (step w2 o) Hs') as H. rewrite D1, D2 in H. apply H. exact Hk.
 Qed.
 
 Lemma sim_empty c1 c2 : (0 <= c1)%Z -> (0 <= c2)%Z -> sim (empty_world c1) (empty_world c2).
@@ -931,8 +1043,10 @@ Qed.
 
 (** The outcome of definition number [k] of ANY history — other definitions before
     and after it, through the same decorator objects or not, the caller mutating its
-    containers in between — is the outcome the same definition has in the history
-    without the other definitions, whatever the global counter was at the start. *)
+    containers in between, resolve_types and the reading API applied to any class —
+    observed at the end, is the outcome the same definition (with the class
+    operations on that class itself) has in the history without the other
+    definitions, whatever the global counter was at the start. *)
 Theorem history_independent_l dflt ops k c1 c2 :
   (0 <= c1)%Z -> (0 <= c2)%Z -> k < n_defs ops ->
   nth k (w_defs (run (empty_world c1) ops)) dflt
@@ -947,16 +1061,9 @@ Lemma defs_only_objs : forall ops w, forallb is_def ops = true -> same_objs w (r
 Proof.
   induction ops as [|o r IH]; intros w H; cbn; [apply same_objs_refl|].
   cbn in H. apply andb_true_iff in H as [Ho Hr].
-  destruct (def_step_objs w o Ho) as ((A1&A2&A3&A4&A5&A6x) & _).
-  destruct (IH (step w o) Hr) as (B1&B2&B3&B4&B5&B6x). unfold run in *.
+  destruct (def_step_objs w o Ho) as ((A1&A2&A3&A4&A5&A6) & _).
+  destruct (IH (step w o) Hr) as (B1&B2&B3&B4&B5&B6). unfold run in *.
   repeat split; congruence.
-Qed.
-
-Lemma last_nth_len {A} (d : A) : forall l, l <> [] -> last l d = nth (List.length l - 1) l d.
-Proof.
-  induction l as [|x r IH]; [congruence|]. intros _. destruct r as [|y r']; [reflexivity|].
-  change (last (x :: y :: r') d) with (last (y :: r') d).
-  rewrite IH by discriminate. cbn. now rewrite Nat.sub_0_r.
 Qed.
 
 Lemma n_defs_app a b : n_defs (a ++ b) = n_defs a + n_defs b.
@@ -968,11 +1075,14 @@ Proof.
   apply andb_true_iff in H as [-> Hr]. cbn. now rewrite IH.
 Qed.
 
-Lemma alone_all_defs : forall h o, forallb is_def h = true -> is_def o = true ->
-  alone (List.length h) (h ++ [o]) = [o].
+Lemma alone_all_defs t0 : forall h i o, forallb is_def h = true -> is_def o = true ->
+  alone_from i (i + List.length h) t0 (h ++ [o]) = [o].
 Proof.
-  induction h as [|x r IH]; intros o H Ho; cbn; [now rewrite Ho|].
-  cbn in H. apply andb_true_iff in H as [-> Hr]. now apply IH.
+  induction h as [|x r IH]; intros i o H Ho; cbn.
+  - now rewrite Ho, Nat.add_0_r, Nat.eqb_refl.
+  - cbn in H. apply andb_true_iff in H as [-> Hr].
+    replace (Nat.eqb i (i + S (List.length r))) with false by (symmetry; apply Nat.eqb_neq; lia).
+    replace (i + S (List.length r)) with (S i + List.length r) by lia. now apply IH.
 Qed.
 
 (** The intended reading for one decorator object (or any mix of definitions): after
@@ -983,11 +1093,11 @@ Lemma definition_history_independent_l dflt w h o :
 Proof.
   intros B Hh Ho.
   pose proof (hist_gen dflt (h ++ [o]) (List.length h) w w (sim_refl w B)) as H.
-  rewrite (alone_all_defs h o Hh Ho) in H. rewrite <- H.
-  - destruct (run_defs (h ++ [o]) w) as (l & Hl & Ll). rewrite Hl.
-    rewrite n_defs_app, (n_defs_all h Hh) in Ll. unfold n_defs in Ll at 1. cbn in Ll. rewrite Ho in Ll. cbn in Ll.
-    rewrite last_nth_len by (destruct l; [cbn in Ll; lia | destruct (w_defs w); discriminate]).
-    rewrite app_length, Ll. f_equal. lia.
+  rewrite (alone_all_defs _ h _ o Hh Ho) in H. rewrite <- H.
+  - assert (Hl : List.length (w_defs (run w (h ++ [o]))) = List.length (w_defs w) + List.length h + 1).
+    { rewrite run_len, n_defs_app, (n_defs_all h Hh). unfold n_defs. cbn. rewrite Ho. cbn. lia. }
+    rewrite last_nth_len by (destruct (w_defs (run w (h ++ [o]))); [cbn in Hl; lia | discriminate]).
+    rewrite Hl. f_equal. lia.
   - rewrite n_defs_app, (n_defs_all h Hh). unfold n_defs at 1. cbn. rewrite Ho. cbn. lia.
 Qed.
 
@@ -1075,9 +1185,24 @@ Proof.
     destruct (attrs_wrap w c cls) as [[? ?] ?] end. exact H.
 Qed.
 
+Lemma cop_noalias c o : outcome_noalias o -> outcome_noalias (cop_outcome c o).
+Proof.
+  destruct c, o as [e|r]; cbn; auto. intros H.
+  apply Forall_forall. intros a Ha. apply in_map_iff in Ha as (x & <- & Hx).
+  rewrite Forall_forall in H. exact (H x Hx).
+Qed.
+
+Lemma Forall_set_nth' {A} (P : A -> Prop) x : P x -> forall n l, Forall P l -> Forall P (set_nth n x l).
+Proof. intros Hx. induction n; intros l H; destruct H; cbn; constructor; auto. Qed.
+
 Lemma step_noalias w o : Forall outcome_noalias (w_defs w) -> Forall outcome_noalias (w_defs (step w o)).
 Proof.
-  intros H. destruct (is_def o) eqn:E; [|now rewrite nondef_defs].
+  intros H. destruct (is_def o) eqn:E.
+  2:{ destruct (is_cop o) eqn:E2; [|now rewrite plain_defs].
+      destruct o as [| | | | | | | | | | | | | |c t]; try discriminate. rewrite cop_defs.
+      destruct (nth_error (w_defs w) t) as [oc|] eqn:E3; [|exact H].
+      apply Forall_set_nth'; [|exact H]. apply cop_noalias.
+      apply nth_error_In in E3. rewrite Forall_forall in H. auto. }
   destruct o; try discriminate; cbn.
   - pose proof (exec_body_frame w b) as [_ [D1 _]].
     destruct (exec_body w b) as [w1 cls]. cbn in D1.
@@ -1162,7 +1287,7 @@ Proof. intros H. destruct (def_step_objs w o H) as ((_&H1&_) & _). exact H1. Qed
 
 (** Class-level [kw_only=True] makes NEW Attributes; without it a field is keyword-only
     exactly when its counting attr says so, whatever was defined from it before. *)
-Lemma own_kw_from_counting_attr w n c : fa_kw (from_counting_attr meta_copy w n c) = ca_kw c.
+Lemma own_kw_from_counting_attr w tys n c : fa_kw (from_counting_attr meta_copy w tys n c) = ca_kw c.
 Proof. reflexivity. Qed.
 
 (** ** The code before the repairs: what the theorems above exclude *)
@@ -1174,12 +1299,12 @@ Definition frozen_base : base_info :=
   {| bi_frozen := true; bi_exc := false; bi_ownsa := false; bi_hashable := true;
      bi_pre := false; bi_post := false;
      bi_attrs := [{| ba_name := "a"; ba_default := true; ba_vals := []; ba_convs := [];
-                     ba_hook := OsNone; ba_kw := false; ba_init := true; ba_meta := [] |}] |}.
+                     ba_cann := None; ba_type := None; ba_hook := OsNone; ba_kw := false; ba_init := true; ba_meta := [] |}] |}.
 Definition ib (d : bool) (c : seqarg) (m : metaarg) : attrib_args :=
   {| aa_default := d; aa_v := SNone; aa_c := c; aa_h := HANone; aa_kw := false; aa_init := true;
      aa_m := m |}.
 Definition body1 (a : attrib_args) (own_hash : bool) (base : base_info) : class_body :=
-  {| cb_fields := [{| fd_name := "x"; fd_entry := EOwn a; fd_ann := true; fd_cv := false |}];
+  {| cb_fields := [{| fd_name := "x"; fd_entry := EOwn a; fd_ann := true; fd_cv := false; fd_ty := TObj "int" |}];
      cb_hash := own_hash; cb_eq := false; cb_setattr := false; cb_init := false;
      cb_pre := false; cb_post := false; cb_base := base |}.
 Definition cls1 (w : world) (b : class_body) : class_obj := snd (exec_body w b).
@@ -1310,7 +1435,7 @@ Definition s_kw : attrs_args :=
      ar_auto_exc := false; ar_eq := None; ar_order := None; ar_auto_detect := false;
      ar_collect_by_mro := false; ar_on_setattr := OsaVal COsNone |}.
 Definition body_shared : class_body :=
-  {| cb_fields := [{| fd_name := "x"; fd_entry := EShared 0; fd_ann := false; fd_cv := false |}];
+  {| cb_fields := [{| fd_name := "x"; fd_entry := EShared 0; fd_ann := false; fd_cv := false; fd_ty := TObj "int" |}];
      cb_hash := false; cb_eq := false; cb_setattr := false; cb_init := false;
      cb_pre := false; cb_post := false; cb_base := obj_base |}.
 Definition shared_history : list op :=
@@ -1335,7 +1460,7 @@ Definition sample_history : list op :=
                                 fd_entry := EOwn {| aa_default := true; aa_v := SList 0; aa_c := SNone;
                                                     aa_h := HANone; aa_kw := false; aa_init := true;
                                                     aa_m := MANone |};
-                                fd_ann := true; fd_cv := false |}];
+                                fd_ann := true; fd_cv := false; fd_ty := TObj "int" |}];
                cb_hash := false; cb_eq := false; cb_setattr := false; cb_init := false;
                cb_pre := false; cb_post := false; cb_base := obj_base |};
    OListAppend 0 "v3"].
@@ -1358,7 +1483,7 @@ Proof. intros H. destruct (def_step_objs w o H) as ((_&_&_&_&_&H1) & _). exact H
 (** A Converter instance shared by two classes on differently named fields: each class
     converts each field with its own converter. *)
 Example shared_converter_example :
-  let fld n c := {| fd_name := n; fd_entry := EOwn (ib false c MANone); fd_ann := true; fd_cv := false |} in
+  let fld n c := {| fd_name := n; fd_entry := EOwn (ib false c MANone); fd_ann := true; fd_cv := false; fd_ty := TObj "int" |} in
   let body fs := {| cb_fields := fs; cb_hash := false; cb_eq := false; cb_setattr := false;
                     cb_init := false; cb_pre := false; cb_post := false; cb_base := obj_base |} in
   let w := run w0 [ONewConv "c1" true true; ODecoDefine define_default;
@@ -1368,3 +1493,57 @@ Example shared_converter_example :
     fp_initconv fb = Some [("x", Some ["c2"]); ("y", Some ["c1"])] /\
     w_convs w = w_convs (run w0 [ONewConv "c1" true true]).
 Proof. vm_compute. do 2 eexists. repeat split; reflexivity. Qed.
+
+(** ** Operations on existing classes *)
+
+(** [resolve_types(A)] (or any other class operation) changes no other class. *)
+Lemma class_op_local_l d w c t t' : t' <> t ->
+  nth t' (w_defs (step w (OClassOp c t))) d = nth t' (w_defs w) d.
+Proof.
+  intros Hne. rewrite cop_defs. destruct (nth_error (w_defs w) t); [|reflexivity].
+  apply nth_set_nth_neq. assumption.
+Qed.
+
+Lemma class_op_objs_l w c t :
+  same_objs w (step w (OClassOp c t)) /\ w_counter (step w (OClassOp c t)) = w_counter w.
+Proof. exact (cop_objs w c t). Qed.
+
+Definition str_base : base_info :=
+  {| bi_frozen := true; bi_exc := false; bi_ownsa := false; bi_hashable := true;
+     bi_pre := false; bi_post := false;
+     bi_attrs := [{| ba_name := "amount"; ba_default := true; ba_vals := []; ba_convs := [];
+                     ba_cann := None; ba_type := Some (TStr "Money"); ba_hook := OsNone;
+                     ba_kw := false; ba_init := true; ba_meta := [] |}] |}.
+Definition frozen_define : define_cells :=
+  {| dc_these := None; dc_hash := None; dc_unsafe_hash := None; dc_init := None; dc_slots := true;
+     dc_frozen := true; dc_auto_attribs := None; dc_kw_only := false; dc_cache_hash := false;
+     dc_auto_exc := true; dc_eq := None; dc_order := Some false; dc_auto_detect := true;
+     dc_on_setattr := OsaVal COsNone |}.
+
+(** define A(Base); resolve_types(A); define B(Base): A's inherited field is resolved,
+    B's is the string it is when B is defined alone, and so is B's [__init__] annotation. *)
+Example resolve_types_does_not_leak :
+  let sub n := {| cb_fields := [{| fd_name := n; fd_entry := EOwn (ib true SNone MANone); fd_ann := true;
+                                   fd_cv := false; fd_ty := TStr "int" |}];
+                  cb_hash := false; cb_eq := false; cb_setattr := false; cb_init := false;
+                  cb_pre := false; cb_post := false; cb_base := str_base |} in
+  let ops := [ODecoDefine frozen_define; OApply 0 (sub "a"); OClassOp CResolve 0; OApply 0 (sub "b")] in
+  exists fa fb, fingerprints (run w0 ops) = [FOk fa; FOk fb] /\
+    map p_ty (fp_fields fa) = [Some (TObj "Money"); Some (TObj "int")] /\
+    map p_ty (fp_fields fb) = [Some (TStr "Money"); Some (TStr "int")] /\
+    fp_ann fa = Some [("amount", Some (TStr "Money")); ("a", Some (TStr "int"))] /\
+    fp_ann fb = Some [("amount", Some (TStr "Money")); ("b", Some (TStr "int"))] /\
+    alone 1 ops = [ODecoDefine frozen_define; OApply 0 (sub "b")] /\
+    alone 0 ops = [ODecoDefine frozen_define; OApply 0 (sub "a"); OClassOp CResolve 0].
+Proof. vm_compute. do 2 eexists. repeat split; reflexivity. Qed.
+
+(** Converter wrappers made by one [def] (lists, optional, factories): each class's
+    [__init__] annotation comes from ITS converter's annotation. *)
+Example wrapper_annotations_per_class :
+  let body c := body1 (ib false c MANone) false obj_base in
+  let ops := [ODecoDefine define_default; OApply 0 (body (SLit ["c1"; "c2"]));
+              OApply 0 (body (SLit ["c2"; "c1"])); OApply 0 (body (SOpt "c3"))] in
+  map (fun f => match f with FOk x => fp_ann x | FExc _ => None end) (fingerprints (run w0 ops))
+  = [Some [("x", Some (TObj "str"))]; Some [("x", None)];
+     Some [("x", Some (TObj "typing.Optional[int]"))]].
+Proof. vm_compute. reflexivity. Qed.
